@@ -85,6 +85,32 @@ fn is_label_suffix(input: &str, suffix: &str) -> bool {
 struct Ctx<'a> {
     psl: &'a RefPsl,
     rep: &'a mut Report,
+    /// Unicode presentations of the IDN rules (the table is keyed by their punycode form)
+    idn_unicode: std::collections::HashSet<String>,
+}
+
+/// A name with non-ASCII labels for which the list algorithm has one answer whichever presentation
+/// of the IDN rules it is applied to: lower-case, no empty label, and no label-aligned suffix of it is
+/// the Unicode presentation of an IDN rule (nor the parent of a wildcard one). Such labels can only
+/// fall under wildcard rules or the implicit "*" rule, so the reference comparison applies.
+fn mixed_safe(ctx: &Ctx, q: &str) -> bool {
+    if q.is_ascii() || RefPsl::has_empty_label(q) {
+        return false;
+    }
+    let ok_char = |c: char| c.is_ascii_lowercase() || c.is_ascii_digit() || c == '-' || c == '.' || (!c.is_ascii() && c.is_alphabetic() && c.to_lowercase().eq(std::iter::once(c)));
+    if !q.chars().all(ok_char) {
+        return false;
+    }
+    let mut start = 0;
+    loop {
+        if ctx.idn_unicode.contains(&q[start..]) {
+            return false;
+        }
+        match q[start..].find('.') {
+            Some(d) => start += d + 1,
+            None => return true,
+        }
+    }
 }
 
 /// Check one query. `canonical`: compare with the reference; otherwise structural clauses only.
@@ -131,7 +157,11 @@ fn check(ctx: &mut Ctx, q: &str, canonical: bool, origin: &str) {
     }
     // ---- reference comparison, canonical names
     let mut class = "structural";
-    if canonical && !empty_label {
+    let mixed = !canonical && mixed_safe(ctx, q);
+    if mixed {
+        ctx.rep.count("mixed_unicode_names_compared");
+    }
+    if (canonical || mixed) && !empty_label {
         let (rs, rclass) = ctx.psl.public_suffix(q);
         class = rclass;
         if ps != rs {
@@ -162,7 +192,7 @@ fn check(ctx: &mut Ctx, q: &str, canonical: bool, origin: &str) {
     } else {
         ctx.rep.count(if empty_label { "class:empty-label" } else { "class:non-canonical" });
     }
-    if (canonical && class != "default" && class != "structural") || empty_label {
+    if ((canonical || mixed) && class != "default" && class != "structural") || empty_label || mixed {
         ctx.rep.nontrivial(fnv_str(q));
     }
     ctx.rep.sample_class(&format!("{origin}/{class}"), json!({"query": case["query"], "public_suffix": ps, "etld_plus_one": format!("{e1:?}"), "is_effective_tld": is}));
@@ -247,7 +277,7 @@ pub fn run(args: &Args) -> Report {
         "queries derived from every rule of public_suffix_list.dat (as is, +1/+2/+3 labels, leading label removed/replaced, wildcard instantiated, exception +/- a label) plus arbitrary strings; distinct by query string; non-trivial when the reference says an explicit rule (normal, wildcard or exception) decides it, or the name has an empty label",
     );
     rep.assumptions.push("idna crate converts IDN rules to the punycode form the table is keyed in".into());
-    rep.assumptions.push("reference comparison only for canonical (lower-case ASCII/punycode) names, as the crate documents; other strings get the structural clauses".into());
+    rep.assumptions.push("reference comparison for canonical (lower-case ASCII/punycode) names, as the crate documents, and for lower-case names with non-ASCII labels none of whose label-aligned suffixes is the Unicode presentation of an IDN rule (for these the list algorithm has one answer whichever presentation of the rules is used); other strings get the structural clauses".into());
     let psl = match RefPsl::load() {
         Ok(p) => p,
         Err(e) => {
@@ -263,7 +293,8 @@ pub fn run(args: &Args) -> Report {
         "idn": psl.rules.iter().filter(|r| r.ascii != r.unicode).count(),
     }));
     let mut rng = Rng::derive(args.seed, "c10", 0);
-    let mut ctx = Ctx { psl: &psl, rep: &mut rep };
+    let idn_unicode = psl.rules.iter().filter(|r| r.ascii != r.unicode).map(|r| r.unicode.clone()).collect();
+    let mut ctx = Ctx { psl: &psl, rep: &mut rep, idn_unicode };
 
     if let Some(path) = args.get("replay") {
         let v: serde_json::Value = serde_json::from_str(&std::fs::read_to_string(path).unwrap_or_default()).unwrap_or_default();
@@ -284,6 +315,13 @@ pub fn run(args: &Args) -> Report {
             // Unicode presentation: structural clauses only
             check(&mut ctx, &r.unicode, false, "rule-unicode-form");
             check(&mut ctx, &format!("a.{}", r.unicode), false, "rule-unicode-form");
+        }
+        // Unicode labels to the left of the rule (every 8th rule): the labels are opaque to the list
+        // algorithm, the answers are those of the ASCII rule
+        if r.line % 8 == 0 {
+            for pre in ["b\u{fc}cher", "www.b\u{fc}cher", "\u{65e5}\u{672c}\u{8a9e}.c", "\u{e9}"] {
+                check(&mut ctx, &format!("{pre}.{}", r.ascii), false, "unicode-labels-left-of-rule");
+            }
         }
         // upper-case presentation: structural only
         if r.line % 16 == 0 {
